@@ -436,6 +436,17 @@ def e2e_engine(pid, spec, tier, seed, workdir, res):
         env = dict(VERIF_PROFILE=prof, VERIF_N=str(n), VERIF_SEED=str(seed), VERIF_CORPUS=os.path.join(ROOT, 'corpus', pid))
         rc, log = run_harness(r.get('test', 'TestE2E'), env, out)
         if rc != 0 or not os.path.exists(os.path.join(out, 'impl.txt')):
+            cur = os.path.join(out, 'current.case')
+            if 'panic:' in log and os.path.exists(cur):
+                # the process died of a panic outside the calling goroutine: a violation of "no panic" with this input
+                trace = log[log.index('panic:'):][:1800]
+                code = 'C10:process-panic'
+                kf = known_open(pid, code, known)
+                if 'C10' in spec.get('monitors', []) and not kf:
+                    res['violations'].append(dict(kind='monitor', code=code, case=open(cur).read().split()[1], profile=prof,
+                                                  payload=dict(case=open(cur).read(), panic=trace,
+                                                               note='the harness process crashed while running this case: a panic in a goroutine started by the transport')))
+                    continue
             res['errors'].append('harness run failed for profile %s: %s' % (prof, log[-2000:]))
             continue
         cases_p, impl_p = os.path.join(out, 'cases.txt'), os.path.join(out, 'impl.txt')
